@@ -1,4 +1,5 @@
 mod util;
+mod toy;
 mod fam_c12;
 mod fam_c13;
 mod lib_e2e;
@@ -11,6 +12,7 @@ mod fam_hasher;
 mod fam_c10;
 mod fam_c16;
 mod fam_c14;
+mod fam_toy;
 #[cfg(feature = "fast_verify")]
 mod fam_c15;
 
@@ -35,6 +37,8 @@ fn main() {
         "c10" => fam_c10::run(seed, thorough),
         "c16" => fam_c16::run(seed, thorough),
         "c14" => fam_c14::run(seed, thorough),
+        "toy" => fam_toy::run(seed, thorough),
+        "toyaux" => fam_toy::run_aux(seed, thorough),
         #[cfg(feature = "fast_verify")]
         "c15" => fam_c15::run(seed, thorough),
         other => {
